@@ -73,3 +73,96 @@ pub async fn preempt_point(tag: &'static str) {
         YieldOnce(false).await;
     }
 }
+
+/// The engine's crate-private backward-edge set (small vector up to 32
+/// callers, concurrent hash set above), exposed for direct stress tests.
+#[derive(Default, Clone)]
+pub struct VerifBackwardEdgeSet(
+    super::computation_graph::CompressedBackwardEdgeSet<fxhash::FxBuildHasher>,
+);
+
+impl std::fmt::Debug for VerifBackwardEdgeSet {
+    fn fmt(&self, f: &mut std::fmt::Formatter<'_>) -> std::fmt::Result {
+        f.debug_struct("VerifBackwardEdgeSet").finish_non_exhaustive()
+    }
+}
+
+impl VerifBackwardEdgeSet {
+    /// Creates an empty set.
+    #[must_use]
+    pub fn new() -> Self { Self::default() }
+
+    /// Inserts an element; returns whether it was newly inserted.
+    #[must_use]
+    pub fn insert(&self, element: crate::query::QueryID) -> bool {
+        use qbice_storage::key_of_set_map::ConcurrentSet as _;
+
+        self.0.insert_element(element)
+    }
+
+    /// Removes an element; returns whether it was present.
+    #[must_use]
+    pub fn remove(&self, element: &crate::query::QueryID) -> bool {
+        use qbice_storage::key_of_set_map::ConcurrentSet as _;
+
+        self.0.remove_element(element)
+    }
+
+    /// Number of elements.
+    #[must_use]
+    pub fn len(&self) -> usize {
+        use qbice_storage::key_of_set_map::ConcurrentSet as _;
+
+        self.0.len()
+    }
+
+    /// Whether the set is empty.
+    #[must_use]
+    pub fn is_empty(&self) -> bool { self.len() == 0 }
+
+    /// All elements an iteration started now yields.
+    #[must_use]
+    pub fn elements(&self) -> Vec<crate::query::QueryID> {
+        use qbice_storage::key_of_set_map::ConcurrentSet as _;
+
+        self.0.iter().collect()
+    }
+}
+
+/// A guard of the engine's crate-private per-query lock table.
+#[derive(Debug)]
+pub struct VerifQueryLock(#[allow(unused)] super::computation_graph::QueryLock);
+
+/// The engine's crate-private per-query lock table, exposed so that it can be
+/// driven directly with a tiny capacity.
+pub struct VerifQueryLockManager(super::computation_graph::VerifLockTable);
+
+impl std::fmt::Debug for VerifQueryLockManager {
+    fn fmt(&self, f: &mut std::fmt::Formatter<'_>) -> std::fmt::Result {
+        f.debug_struct("VerifQueryLockManager").finish_non_exhaustive()
+    }
+}
+
+impl VerifQueryLockManager {
+    /// Creates a lock table whose cache of lock instances has the capacity.
+    #[must_use]
+    pub fn new(capacity: u64) -> Self {
+        Self(super::computation_graph::VerifLockTable::new(capacity))
+    }
+
+    /// Acquires the shared lock of a query.
+    pub async fn acquire_shared(
+        &self,
+        query_id: &crate::query::QueryID,
+    ) -> VerifQueryLock {
+        VerifQueryLock(self.0.acquire_shared_lock(query_id).await)
+    }
+
+    /// Acquires the exclusive lock of a query.
+    pub async fn acquire_exclusive(
+        &self,
+        query_id: &crate::query::QueryID,
+    ) -> VerifQueryLock {
+        VerifQueryLock(self.0.acquire_exclusive_lock(query_id).await)
+    }
+}
